@@ -2,7 +2,7 @@
 from regexgen import *
 ENGINE = "regex"
 TIMEOUT = 900
-PARTIAL = ["termination of iter_derivatives (finiteness of the derivative closure) is not proved; the run-time side is covered: a run that does not finish within the time limit is reported as a failing input"]
+PARTIAL = []
 ASSUMPTIONS = ["oracle: internal consistency of the implementation's own answers: e first, no duplicates, closure under char_derivative at every class boundary and probe character, try_compile Some iff count <= n"]
 
 
